@@ -1,6 +1,7 @@
 package c01
 
 import (
+	"time"
 	"encoding/json"
 	"fmt"
 	"os"
@@ -121,7 +122,7 @@ var worker *wk.Client
 
 func getWorker() *wk.Client {
 	if worker == nil {
-		worker = wk.New(wk.Options{})
+		worker = wk.New(wk.Options{CPULimit: 150 * time.Second}) // generous: the budget only separates "slow on a loaded machine" from "does not terminate"
 	}
 	return worker
 }
